@@ -12,7 +12,9 @@ use rayon::prelude::*;
 use refnoise::{patterns, DhAlg, HashAlg, Proto};
 use serde_json::json;
 
-const CATS: [Cat; 5] = [Cat::ExpectedErrGotOk, Cat::ExpectedOkGotErr, Cat::OutBytes, Cat::OutLen, Cat::Panic];
+// "Ok only for the peer's message ... and then exactly the payload": acceptance of a genuine message is not
+// demanded here (C02/C05 do), so ExpectedOkGotErr is not judged; a run in which nothing is accepted is vacuous
+const CATS: [Cat; 4] = [Cat::ExpectedErrGotOk, Cat::OutBytes, Cat::OutLen, Cat::Panic];
 
 pub fn nonces() -> Vec<u64> {
     let mut v = vec![0u64, 1, 2, 1 << 8, 1 << 16, 1 << 24, 1 << 31, (1 << 32) - 1, 1 << 32, (1 << 32) + 1, 1 << 56, 1 << 63, u64::MAX - 3, u64::MAX - 2, u64::MAX - 1, 0x0102_0304_0506_0708];
@@ -262,6 +264,9 @@ pub fn run(tier: Tier) -> i32 {
         }
     });
     ctx.states.store((cases.len() + pair_cases.len()) as u64, std::sync::atomic::Ordering::Relaxed);
+    if ctx.counters.lock().unwrap().get("deliveries_accepted").copied().unwrap_or(0) == 0 {
+        ctx.vacuous("no delivery was ever accepted: the rejections prove nothing");
+    }
     let (p0, b0, s0, pl0, st0) = &cases[0];
     let o0 = ops_for(p0, *b0, *s0, *pl0, *st0);
     ctx.sample(json!({"name": p0.name, "backend": b0, "ops_head": &o0[..8.min(o0.len())], "ops_total": o0.len()}));
